@@ -718,7 +718,10 @@ func (x *c09Seq) doGet(id int) {
 		if st, err := os.Stat(x.w.path(x.ids[id])); err == nil && st.Size() == c09DataStart {
 			attrs["file_header_nonce_only"] = true
 		}
-		if e.aligned {
+		// the value returned ends at an LZ4 block edge (64 KiB of content): the file was cut
+		// where a cipher-block boundary coincides with an LZ4 block edge.  Content built for
+		// that (knob k_align) meets it always, other content by chance.
+		if e.aligned || len(got) < len(e.data) && len(got)%c09LZ4Block == 0 && bytes.Equal(got, e.data[:len(got)]) {
 			attrs["aligned_content"] = true
 		}
 		for _, f := range e.faults {
